@@ -32,12 +32,7 @@ Proof.
 Qed.
 
 Lemma nodupb_spec : forall l, nodupb l = true -> NoDup l.
-Proof.
-  induction l as [|x r IH]; simpl; intros H; [constructor|].
-  apply andb_true_iff in H. destruct H as [H1 H2]. constructor; [|auto].
-  intros HI. apply negb_true_iff in H1. assert (existsb (str_eqb x) r = true); [|congruence].
-  apply existsb_exists. exists x. split; [exact HI|apply str_eqb_refl].
-Qed.
+Proof. intros l. apply nodupb_iff. Qed.
 
 Definition toy_ids_ok (sg : option (list (N * option str))) : bool :=
   match sg with Some l => nodupb (some_ids (map snd l)) | None => true end.
@@ -108,12 +103,15 @@ Proof.
   unfold layers_ok. simpl. split.
   { split; [reflexivity|]. repeat constructor. simpl. intros H. apply (f_equal (@List.length N)) in H. discriminate. }
   split. { apply NoDup_str2. reflexivity. }
-  split; [|exact I].
-  constructor; [|constructor; [|constructor]].
-  - split; [triv_dict|]. split; [intros; exact I|]. split; [exact I|].
-    split; [apply NoDup_str2; reflexivity|].
-    constructor; [split; [exact I|reflexivity]|]. constructor; [split; [exact I|reflexivity]|constructor].
-  - split; [triv_dict|]. split; [intros; exact I|]. split; [exact I|]. split; constructor.
+  split.
+  { constructor; [|constructor; [|constructor]].
+    - split; [triv_dict|]. split; [intros; exact I|]. split; [exact I|].
+      split; [apply NoDup_str2; reflexivity|].
+      constructor; [split; [exact I|reflexivity]|]. constructor; [split; [exact I|reflexivity]|constructor].
+    - split; [triv_dict|]. split; [intros; exact I|]. split; [exact I|]. split; constructor. }
+  split; [exact I|]. split; [apply NoDup_str2; reflexivity|].
+  constructor; [intros _; reflexivity|]. constructor; [|constructor].
+  simpl. intros H. apply (f_equal (@List.length N)) in H. discriminate.
 Qed.
 
 Theorem toy_empty_valid : font_valid toy_sig toy_empty.
@@ -123,9 +121,12 @@ Proof.
   split; [constructor|]. split; [constructor|]. split; [triv_dict; discriminate|].
   split; [reflexivity|]. split; [reflexivity|]. split; [exact I|]. split; [exact I|].
   unfold layers_ok. simpl. split; [split; [reflexivity|constructor]|].
-  split; [repeat constructor; simpl; tauto|]. split; [|exact I].
-  constructor; [|constructor].
-  split; [triv_dict; discriminate|]. split; [intros; discriminate|]. split; [exact I|]. split; constructor.
+  split; [repeat constructor; simpl; tauto|].
+  split.
+  { constructor; [|constructor].
+    split; [triv_dict; discriminate|]. split; [intros; discriminate|]. split; [exact I|]. split; constructor. }
+  split; [exact I|]. split; [repeat constructor; simpl; tauto|].
+  constructor; [intros _; reflexivity|constructor].
 Qed.
 
 (** ** C04: closedness of the toy parts, the orphan object-libs witness, a fixed-point example *)
@@ -136,41 +137,36 @@ Proof.
   destruct (i_guides i); [exact H|reflexivity].
 Qed.
 
-Theorem orphan_witness :
-  orphan_object_libs toy_sig toy_orphan_tree /\
-  exists f, load toy_sig toy_orphan_tree = Ok f /\ forall o, save toy_sig o f = Err SPreexistingObjectLibs.
-Proof.
-  split.
-  - split; [reflexivity|]. eexists. eexists. split; [reflexivity|]. split; [reflexivity|]. vm_compute. discriminate.
-  - eexists. split; [vm_compute; reflexivity|]. intros o. vm_compute. reflexivity.
-Qed.
+(** regression (1c81824): a tree with [public.objectLibs] in lib.plist and no fontinfo.plist is
+    loaded WITHOUT the key, and the loaded font is saved *)
+Theorem orphan_regression :
+  exists f t', load toy_sig toy_orphan_tree = Ok f /\ d_get toy_sig OBJ (f_lib toy_sig f) = None /\
+               save toy_sig 0 f = Ok t'.
+Proof. eexists. eexists. vm_compute. repeat split; reflexivity. Qed.
 
-Theorem orphan_object_libs_refutes :
-  ~ (forall (S : sig), sig_ok S -> forall o (t : tree S) (f : font S),
-       load S t = Ok f -> exists t', save S o f = Ok t').
-Proof.
-  intros H. destruct orphan_witness as [_ [f [Hl Hs]]].
-  destruct (H toy_sig toy_ok 0 toy_orphan_tree f Hl) as [t' Ht']. rewrite Hs in Ht'. discriminate.
-Qed.
+(** regression (83f6c18, afd801a): duplicate layer names / directories and a glif file used twice
+    are rejected by load *)
+Definition toy_dup_tree (lc : list (str * str)) (contents : list (str * str)) : tree toy_sig :=
+  Build_tree toy_sig
+    (Some (CMeta {| m_creator := None; m_version := 3; m_minor := 0 |})) None None None None None
+    (Some (CPairs lc))
+    [(GLYPHS, Build_ldir toy_sig (Some (CPairs contents)) None [(s "a.glif", CGlif (s "a", 0))]);
+     (s "glyphs.x", Build_ldir toy_sig (Some (CPairs [])) None [])]
+    None None.
+Theorem duplicates_rejected :
+  load toy_sig (toy_dup_tree [(DEFAULT_LAYER_NAME, GLYPHS); (s "x", GLYPHS)] []) = Err LDuplicateLayerDirectory /\
+  load toy_sig (toy_dup_tree [(s "x", GLYPHS); (s "x", s "glyphs.x")] []) = Err LDuplicateLayerName /\
+  load toy_sig (toy_dup_tree [(s "x", GLYPHS); (DEFAULT_LAYER_NAME, s "glyphs.x")] []) = Err LReservedLayerName /\
+  load toy_sig (toy_dup_tree [(s "x", GLYPHS)] [(s "a", s "a.glif"); (s "b", s "a.glif")]) = Err LDuplicateGlyphFile /\
+  exists f, load toy_sig (toy_dup_tree [(s "y", s "glyphs.x"); (s "x", GLYPHS)] [(s "a", s "a.glif")]) = Ok f.
+Proof. repeat split; try (vm_compute; reflexivity). eexists. vm_compute. reflexivity. Qed.
 
 Theorem fixed_point_example :
-  exists t f, save toy_sig 0 toy_font = Ok t /\ load toy_sig t = Ok f /\ font_valid toy_sig f /\
-              disk_wf toy_sig t /\ ~ orphan_object_libs toy_sig t.
+  exists t f, save toy_sig 0 toy_font = Ok t /\ load toy_sig t = Ok f /\ font_valid toy_sig f.
 Proof.
   destruct (save_load_roundtrip toy_sig toy_ok 0 toy_font toy_font_valid) as (t & Hs & _ & f & Hl & _).
   exists t, f. split; [exact Hs|]. split; [exact Hl|].
   assert (Ht : save toy_sig 0 toy_font = Ok t) by exact Hs.
   vm_compute in Ht. inversion Ht; subst t; clear Ht.
-  match type of Hl with load toy_sig ?T = _ => set (t := T) in * end.
-  assert (Hd : disk_wf toy_sig t).
-  { split.
-    - intros c lc H1 H2. unfold t in H1. simpl in H1. inversion H1; subst c. simpl in H2. inversion H2; subst lc.
-      apply NoDup_str2. reflexivity.
-    - intros d ld c cl HI H1 H2. unfold t in HI. simpl in HI. destruct HI as [HI|[HI|[]]]; inversion HI; subst d ld;
-        simpl in H1; inversion H1; subst c; simpl in H2; inversion H2; subst cl.
-      + apply NoDup_str2. reflexivity.
-      + constructor. }
-  assert (Ho : ~ orphan_object_libs toy_sig t) by (intros [H _]; discriminate H).
-  split; [|split; [exact Hd|exact Ho]].
-  eapply (load_yields_valid toy_sig toy_ok toy_closed); [exact Hl|reflexivity|reflexivity|reflexivity|exact Hd|exact Ho].
+  eapply (load_yields_valid toy_sig toy_ok toy_closed); [exact Hl|reflexivity|reflexivity|reflexivity].
 Qed.
